@@ -6,6 +6,7 @@ import (
 	"fmt"
 	"go/ast"
 	"go/build"
+	"go/parser"
 	"go/token"
 	"io/fs"
 	"path/filepath"
@@ -57,4 +58,8 @@ func buildOK(f *ast.File, fset *token.FileSet) bool {
 	ctx.CgoEnabled = false
 	ok, err := ctx.MatchFile(filepath.Dir(fset.File(f.Pos()).Name()), name)
 	return err == nil && ok
+}
+
+func parseFileOnly(src string) (*ast.File, error) {
+	return parser.ParseFile(token.NewFileSet(), "", src, 0)
 }
